@@ -526,6 +526,70 @@ hex_harness! {
     fn c16_steps_1byte_w7() { steps_1byte::<7>(); }
 }
 
+// ---- encoder, up to the entry of step packing: the bit vector it allocates can hold every step at the id width the
+// largest task id needs (at least one bit). `BitVec::repeat` (what `bitvec![..; n]` expands to) is the first call into
+// the `bitvec` crate; the path ends there. ------------------------------------------------------------------------
+
+static mut NEEDED_BITS: usize = 0;
+
+#[cfg(kani)]
+pub fn bitvec_repeat_stub<T: bitvec::store::BitStore, O: bitvec::order::BitOrder>(_bit: bool, len: usize) -> bitvec::vec::BitVec<T, O> {
+    assert!(len >= unsafe { NEEDED_BITS }, "C16: the encoder's id width cannot hold the largest task id (or is 0)");
+    kani::cover!(true, "the encoder reaches step packing");
+    kani::assume(false);
+    unreachable!()
+}
+
+fn bit_len(x: usize) -> usize {
+    (usize::BITS - x.leading_zeros()) as usize
+}
+
+fn encoder_width<const N: usize>() {
+    let mut steps = Vec::with_capacity(N);
+    let mut max_id = 0usize;
+    let mut tasks = 0usize;
+    let mut i = 0;
+    while i < N {
+        if kani::any() {
+            steps.push(ScheduleStep::Random);
+        } else {
+            let id: usize = kani::any();
+            if id > max_id {
+                max_id = id;
+            }
+            tasks += 1;
+            steps.push(ScheduleStep::Task(TaskId::from(id)));
+        }
+        i += 1;
+    }
+    // a task step needs 1 + W bits, W = significant bits of the largest id, at least 1 (the parser rejects a width of 0)
+    let w = if bit_len(max_id) == 0 { 1 } else { bit_len(max_id) };
+    unsafe { NEEDED_BITS = tasks * (1 + w) + (N - tasks) };
+    kani::cover!(max_id == 0 && tasks > 0, "only task id 0 is scheduled");
+    kani::cover!(max_id > (1usize << 62), "a task id of 63 or 64 significant bits");
+    let s = Schedule { seed: 5, steps };
+    let enc = serialize_schedule(&s);
+    // natively the whole encoder runs: the string must parse back to the same schedule
+    #[cfg(not(kani))]
+    {
+        let d = deserialize_schedule(&enc);
+        assert!(d.as_ref() == Some(&s), "C16: serialized schedule does not parse back");
+    }
+    std::mem::forget(enc);
+    std::mem::forget(s);
+}
+
+hex_harness! {
+    #[kani::stub(bitvec::vec::BitVec::repeat, crate::c16::bitvec_repeat_stub)]
+    #[kani::unwind(6)]
+    fn c16_encoder_width_1() { encoder_width::<1>(); }
+}
+hex_harness! {
+    #[kani::stub(bitvec::vec::BitVec::repeat, crate::c16::bitvec_repeat_stub)]
+    #[kani::unwind(6)]
+    fn c16_encoder_width_3() { encoder_width::<3>(); }
+}
+
 // ---- malformed input, longer vectors: every byte vector of length N is either rejected or reaches step decoding
 // (where the path ends, see `bitslice_from_slice_stub`) without panicking ------------------------------------------
 
